@@ -3,10 +3,12 @@ package beacon
 import (
 	"bytes"
 	"context"
+	"errors"
 	"fmt"
 	"time"
 
 	"github.com/drand/drand/v2/common"
+	"github.com/drand/drand/v2/internal/chain"
 	"github.com/drand/drand/v2/internal/chain/memdb"
 	"github.com/drand/drand/v2/internal/net"
 	"github.com/drand/drand/v2/internal/zzfake"
@@ -26,7 +28,22 @@ type zzWorldNet struct {
 	up     [][]bool
 	clk    *zzfake.Clock
 	sent   []zzNetPartial
-	stores []*memdb.Store
+	stores []*zzFaultyStore
+}
+
+// zzFaultyStore: the node's database, which may refuse writes for a while (disk full, cancelled transaction).
+type zzFaultyStore struct {
+	chain.Store
+	refuse bool
+}
+
+var errZZDisk = errors.New("zz: the database refuses the write")
+
+func (s *zzFaultyStore) Put(ctx context.Context, b *common.Beacon) error {
+	if s.refuse {
+		return errZZDisk
+	}
+	return s.Store.Put(ctx, b)
 }
 
 type zzNetPartial struct {
@@ -111,7 +128,7 @@ func zzNewWorldNet(n, t int, startUnix int64) *zzWorldNet {
 	}
 	for i := 0; i < n; i++ {
 		conf := &Config{Public: nw.group.Nodes[i], Share: nw.ep.Share(nw.sch, i), Group: nw.group, Clock: w.clk}
-		st := memdb.NewStore(200)
+		st := &zzFaultyStore{Store: memdb.NewStore(200)}
 		h, err := NewHandler(context.Background(), &zzNetClient{w, i}, st, conf, zzfake.Logger(), common.GetAppVersion())
 		if err != nil {
 			panic(err)
@@ -174,7 +191,7 @@ func ZZ_C05_network() {
 		zz.Assert("healthy_network_produces_every_due_round", w.head(i) == 2)
 	}
 	// phase 2: the outage
-	shape := zz.Choose("outage.shape", 6)
+	shape := zz.Choose("outage.shape", 7)
 	victim := zz.Choose("outage.victim", n)
 	outage := 1 + zz.Choose("outage.rounds", zz.Param("max_outage", 2))
 	if shape == 1 && zz.Param("long_outage", 0) > 0 && zz.Bool("outage.long") {
@@ -196,6 +213,8 @@ func ZZ_C05_network() {
 			}
 		}
 	case 3: // no fault
+	case 6: // the victim's database refuses every write for the length of the outage; the network is fine
+		w.stores[victim].refuse = true
 	case 5: // the victim's process stops; it is restarted over its own store when the outage ends (Catchup)
 		w.hs[victim].Stop(context.Background())
 		w.isolate(victim, true)
@@ -212,7 +231,7 @@ func ZZ_C05_network() {
 	}
 	if shape != 1 && connected >= t {
 		for i := 0; i < n; i++ {
-			if (shape == 0 || shape == 4 || shape == 5) && i == victim {
+			if (shape == 0 || shape == 4 || shape == 5 || shape == 6) && i == victim {
 				continue
 			}
 			zz.Assert("connected_threshold_keeps_producing_during_the_outage", w.head(i) == clockRound())
@@ -224,6 +243,7 @@ func ZZ_C05_network() {
 		}
 	}
 	// phase 3: heal (one node possibly one round later than the rest)
+	w.stores[victim].refuse = false
 	if shape == 5 {
 		// restart: a new handler over the surviving store, as the daemon does after a restart
 		conf := &Config{Public: nw.group.Nodes[victim], Share: nw.ep.Share(nw.sch, victim), Group: nw.group, Clock: w.clk}
